@@ -13,6 +13,7 @@ import (
 
 	"perkeep.org/pkg/blob"
 	"perkeep.org/pkg/blobserver"
+	"perkeep.org/pkg/blobserver/encrypt"
 	"perkeep.org/pkg/vos"
 	"perkeep.org/pkg/vsync"
 
@@ -123,7 +124,9 @@ func scenario(spec *bk.Spec, p c14prog.Program, bound int) *sched.Config {
 // meta index: everything must come back from the wrapped stores), every
 // acknowledged blob must be fetchable with the right bytes.
 func compactionScenario(spec *bk.Spec, bound int) *sched.Config {
-	const n = 101
+	// the upload that brings the number of small meta blobs over encrypt.SmallMetaCountLimit
+	// (3 in this build: the constant is scaled down through check.json "subst") starts the packer
+	n := encrypt.SmallMetaCountLimit + 1
 	blobs := make([]hs.Blob, n)
 	for i := range blobs {
 		blobs[i] = hs.Mk(fmt.Sprintf("m%d", i), []byte(fmt.Sprintf("small plaintext blob number %d", i)), "")
@@ -202,6 +205,84 @@ func compactionScenario(spec *bk.Spec, bound int) *sched.Config {
 		}}
 }
 
+// compactionLevelsScenario: n uploads one after the other (the packer goroutines run in
+// between), then the store's own recovery (restart with a wiped meta index). With the scaled
+// constants (a roll-up every 4th small meta blob, "full" at 12 rows) n = 1..40 walks through
+// several levels of roll-ups, including packed meta blobs that are rolled up again and the
+// first ones that reach the full size. Default schedule only (bound 0): the point is the
+// history, not the interleaving.
+func compactionLevelsScenario(spec *bk.Spec, n int) *sched.Config {
+	blobs := make([]hs.Blob, n)
+	for i := range blobs {
+		blobs[i] = hs.Mk(fmt.Sprintf("m%d", i), []byte(fmt.Sprintf("small plaintext blob number %d", i)), "")
+	}
+	return &sched.Config{Name: fmt.Sprintf("%s/meta-compaction-levels/n=%02d", spec.Name, n), Bound: 0, DelayBound: true, SigPrefix: "C14|" + spec.Name + "|meta-compaction-levels", MaxSteps: 200000,
+		Body: func(x *sched.X) {
+			env := bk.NewEnv()
+			defer env.Close()
+			env.Hook = func(store, op string, br blob.Ref) error {
+				vsync.Point(store + op)
+				return nil
+			}
+			sto, err := spec.Build(env)
+			if err != nil {
+				panic(err)
+			}
+			var upErr error
+			x.Go("uploader", func() {
+				for _, b := range blobs {
+					if _, err := blobserver.Receive(ctx, sto, b.Ref, bytes.NewReader(b.Data)); err != nil && upErr == nil {
+						upErr = fmt.Errorf("Receive(%s): %v", b.Name, err)
+					}
+				}
+			})
+			x.Run()
+			if x.Deadlock {
+				x.Fail("hang", "uploads or compaction never finished: "+strings.Join(x.S.ParkedLabels(), " "))
+				return
+			}
+			if x.Horizon {
+				return
+			}
+			if upErr != nil {
+				x.Fail("receive-failed", upErr.Error())
+				return
+			}
+			for phase, s := range map[string]func() (blobserver.Storage, error){
+				"live":           func() (blobserver.Storage, error) { return sto, nil },
+				"after-recovery": func() (blobserver.Storage, error) { return spec.Recover(env) },
+			} {
+				st, err := s()
+				if err != nil {
+					x.Fail("recovery-fails", fmt.Sprintf("restart with a wiped meta index fails after %d uploads: %v", n, err))
+					return
+				}
+				lost := 0
+				first := ""
+				for _, b := range blobs {
+					rc, _, err := st.Fetch(ctx, b.Ref)
+					if err != nil {
+						lost++
+						if first == "" {
+							first = fmt.Sprintf("Fetch(%s): %v", b.Name, err)
+						}
+						continue
+					}
+					d, _ := io.ReadAll(rc)
+					rc.Close()
+					if !bytes.Equal(d, b.Data) {
+						x.Fail(phase+"|wrong-bytes", fmt.Sprintf("%s after %d uploads: Fetch(%s) returned different bytes", phase, n, b.Name))
+						return
+					}
+				}
+				if lost > 0 {
+					x.Fail(phase+"|acknowledged-blob-lost", fmt.Sprintf("%s after %d sequential uploads: %d acknowledged blobs cannot be fetched (%s)", phase, n, lost, first))
+					return
+				}
+			}
+		}}
+}
+
 func maskNames(m uint32) string {
 	var s []string
 	for i, n := range c14prog.Names {
@@ -231,6 +312,9 @@ func scenarios() []*sched.Config {
 		}
 		if sp.Name == "encrypt" {
 			out = append(out, compactionScenario(sp, 2))
+			for n := 1; n <= 40; n++ {
+				out = append(out, compactionLevelsScenario(sp, n))
+			}
 		}
 	}
 	return out
